@@ -959,8 +959,24 @@ class ConfigInformation:
                         config.__xpm__.values[name] = sealed_value(value)
 
                 config.__xpm__._sealed = True
+                sealed.append(config)
 
-        Sealer(context, recurse_task=True)(self.pyobject)
+        # A sealing that fails (a generator raises, a generated value is
+        # refused...) leaves nothing sealed: the configurations sealed on the
+        # way hold paths generated for an attempt that did not succeed, and
+        # the sealer would skip them the next time
+        sealed: List[Config] = []
+        try:
+            Sealer(context, recurse_task=True)(self.pyobject)
+        except BaseException:
+            for config in sealed:
+                config.__xpm__._sealed = False
+                for name, value in config.__xpm__.values.items():
+                    if isinstance(value, (list, dict)):
+                        config.__xpm__.values[name] = unsealed_value(value)
+                config.__xpm__._raw_identifier = None
+                config.__xpm__._full_identifier = None
+            raise
 
     def __unseal__(self):
         """Unseal this configuration and its descendant
